@@ -73,6 +73,10 @@ type Obligation struct {
 }
 
 type Enc struct {
+	// receive alternatives of the select whose sends are being recorded
+	selActive, selNonBlocking bool
+	selAlts                   []string
+	lastResTypes              map[string]types.Type
 	v    *Verifier
 	q    *Query
 	u    *Universe
